@@ -132,6 +132,9 @@ func mkConfig(id string, native, hack, pad bool, override map[string]config.DBIO
 	return c, lc
 }
 
+// appBeforeCommit, when set, runs inside an application transaction just before it commits
+var appBeforeCommit func()
+
 func txnErrClass(err error) string {
 	var ee syncer.ErrEntry
 	switch {
@@ -432,6 +435,9 @@ func init() {
 						return err
 					}
 				}
+			}
+			if appBeforeCommit != nil {
+				appBeforeCommit() // the application keeps its write transaction open for a while
 			}
 			return nil
 		})
